@@ -47,24 +47,36 @@ Inductive behaviour :=
 | BRaise (tag : N)                         (* body raises an application exception *)
 | BUnsub (targets : list N).               (* body calls .unsubscribe() on those Subscription objects
                                               (if it holds them and they are active), then returns *)
-Inductive signature :=
-| SigAny                                   (* def h( *args, **kw) *)
-| SigOnly (ks : list key).                 (* def h( *args, k1=None, ..): any other keyword -> TypeError at the call *)
+Record signature := {                      (* def h([self,] p0, .., p(n-1) [, *args] [, k1=.., ..] [, **kw]) *)
+  sg_fixed : nat;                          (* required positional parameters (their names are no keyword names) *)
+  sg_varargs : bool;                       (* *args *)
+  sg_kwonly : list key;                    (* keyword-only parameters, all with defaults *)
+  sg_varkw : bool }.                       (* **kw *)
+Definition SigAny : signature := {| sg_fixed := 0; sg_varargs := true; sg_kwonly := []; sg_varkw := true |}.
+Definition SigOnly (ks : list key) : signature :=
+  {| sg_fixed := 0; sg_varargs := true; sg_kwonly := ks; sg_varkw := false |}.
+
+Inductive anntype := TInt | TStr.          (* published values are integers: an int annotation fits, a str one never does *)
 
 Record handler := {                        (* request.Handler(fn, obj, details_arg) + what fn does *)
   h_obj : bool;                            (* decorated-object form: obj is passed as first positional argument *)
   h_details : option key;                  (* details_arg *)
   h_sig : signature;
+  h_check : bool;                          (* check_types: Handler.fn is the coroutine wrapper of session.type_check(fn) *)
+  h_ann : option anntype;                  (* type hint on p0 (read only by the type_check wrapper) *)
   h_beh : behaviour }.
 
 Fixpoint memN (x : N) (l : list N) : bool :=
   match l with [] => false | y :: r => (x =? y) || memN x r end.
 
-Definition accepts (sg : signature) (kw : kwargs) : bool :=
-  match sg with
-  | SigAny => true
-  | SigOnly ks => forallb (fun k => memN k ks) (dict_keys kw)
-  end.
+(* does the call fn( *args, **kw) bind?  (Python's call machinery, or inspect.getcallargs inside the wrapper) *)
+Definition accepts (sg : signature) (nargs : nat) (kw : kwargs) : bool :=
+  Nat.leb (sg_fixed sg) nargs && (sg_varargs sg || Nat.eqb nargs (sg_fixed sg))
+  && (sg_varkw sg || forallb (fun k => memN k (sg_kwonly sg)) (dict_keys kw)).
+
+(* protocol.py type_check/_type_check: isinstance(arguments[name], hint) fails -> raise TypeCheckError *)
+Definition ill_typed (h : handler) : bool :=
+  h_check h && Nat.leb 1 (sg_fixed (h_sig h)) && match h_ann h with Some TStr => true | _ => false end.
 
 (* ------------------------------------------------------------------ messages, results, outputs *)
 Inductive wmsg :=
@@ -75,6 +87,7 @@ Inductive exn :=
 | EProtocolError | ETransportLost | EAssertion
 | EException                               (* request.py: Exception("subscription no longer active") *)
 | ETypeError                               (* the call machinery rejects an unexpected keyword *)
+| ETypeCheck                               (* exception.TypeCheckError raised by the type_check wrapper *)
 | EUser (tag : N)                          (* raised by a handler body *)
 | EAppError (uri : N)                      (* ApplicationError built from an ERROR message *)
 | EClosed.                                 (* ApplicationError("wamp.close.transport_lost") from onLeave *)
@@ -294,11 +307,14 @@ Fixpoint body_unsub (s : sess) (targets : list N) : sess * list out * option exn
     end
   end.
 
-(* future = txaio.as_future(handler.fn, *invoke_args, **invoke_kwargs); add_callbacks(future, _success, _error) *)
+(* future = txaio.as_future(handler.fn, *invoke_args, **invoke_kwargs); add_callbacks(future, _success, _error)
+   With check_types, handler.fn is the wrapper: it binds the arguments itself (TypeError), checks the hints
+   (TypeCheckError) and otherwise calls fn( *args, **kwargs) unchanged.  OInvoke reports what fn's body receives. *)
 Definition invoke (s : sess) (e : subent) (args : list Z) (kw : kwargs) : sess * list out :=
   let h := se_handler e in
   let l := se_label e in
-  if negb (accepts (h_sig h) kw) then (s, [OInvoke l (h_obj h) args kw false; OUserError l ETypeError])
+  if negb (accepts (h_sig h) (length args) kw) then (s, [OInvoke l (h_obj h) args kw false; OUserError l ETypeError])
+  else if ill_typed h then (s, [OInvoke l (h_obj h) args kw false; OUserError l ETypeCheck])
   else match h_beh h with
   | BReturn => (s, [OInvoke l (h_obj h) args kw true])
   | BRaise t => (s, [OInvoke l (h_obj h) args kw true; OUserError l (EUser t)])
@@ -312,23 +328,66 @@ Definition invoke (s : sess) (e : subent) (args : list Z) (kw : kwargs) : sess *
 Definition is_active (s : sess) (l : N) : bool :=
   match lookup l (s_objs s) with Some o => so_active o | None => false end.
 
+(* txaio flavour.  Twisted: callbacks fire synchronously and a coroutine function runs eagerly (maybeDeferred), so
+   every handler is called inside the dispatch loop.  asyncio: every future callback runs in the loop turn after the
+   operation, and txaio.as_future wraps a coroutine function (the check_types wrapper is one) in a Task: the loop
+   only creates the Task, the handler body starts in the following loop turn. *)
+Inductive flavour := Tx | Aio.
+
+Definition deferred (fl : flavour) (e : subent) : bool :=
+  match fl with Tx => false | Aio => h_check (se_handler e) end.
+
+Inductive item :=
+| INow (o : out)                           (* produced while the dispatch loop runs *)
+| ILater (e : subent).                     (* a Task created for this entry; its body runs after the loop *)
+
 (* for subscription in list(self._subscriptions[msg.subscription]):      -- a SNAPSHOT taken when the event arrives
        if not subscription.active: continue                              -- unsubscribed by an earlier handler of this event
        ... *)
-Fixpoint deliver (snap : list subent) (ev : event) (s : sess) : sess * list out :=
+Fixpoint deliver (fl : flavour) (snap : list subent) (ev : event) (s : sess) : sess * list item :=
   match snap with
   | [] => (s, [])
   | e :: r =>
     if is_active s (se_label e) then
-      let '(s1, o1) := invoke s e (e_args ev) (build_kwargs e ev) in
-      let '(s2, o2) := deliver r ev s1 in
-      (s2, o1 ++ o2)
-    else deliver r ev s
+      if deferred fl e then
+        let '(s2, i2) := deliver fl r ev s in (s2, ILater e :: i2)
+      else
+        let '(s1, o1) := invoke s e (e_args ev) (build_kwargs e ev) in
+        let '(s2, i2) := deliver fl r ev s1 in
+        (s2, map INow o1 ++ i2)
+    else deliver fl r ev s
   end.
 
-Definition on_event (s : sess) (ev : event) : sess * list out :=
+Definition is_immediate (o : out) : bool :=
+  match o with OSent _ | OInvoke _ _ _ _ _ | ORaised _ => true | _ => false end.
+Definition is_gather (o : out) : bool := match o with ODoneG _ _ => true | _ => false end.
+
+(* the loop turns after the dispatch (asyncio), in call_soon order.  g1 = first turn: callbacks of the futures the
+   loop left behind (onUserError of a failed handler, completion of an unsubscribe future) and the Tasks' first steps
+   (handler body: its call, the messages it sends); g2 = second turn: callbacks scheduled by the Tasks. *)
+Fixpoint run_items (ev : event) (s : sess) (its : list item) : sess * list out * list out * list out :=
+  match its with
+  | [] => (s, [], [], [])
+  | INow o :: r =>
+      let '(s2, g0, g1, g2) := run_items ev s r in
+      if is_immediate o then (s2, o :: g0, g1, g2) else (s2, g0, o :: g1, g2)
+  | ILater e :: r =>
+      let '(s1, o1) := invoke s e (e_args ev) (build_kwargs e ev) in
+      let '(s2, g0, g1, g2) := run_items ev s1 r in
+      (s2, g0, filter is_immediate o1 ++ g1, filter (fun o => negb (is_immediate o)) o1 ++ g2)
+  end.
+
+Fixpoint now_outs (its : list item) : list out :=
+  match its with [] => [] | INow o :: r => o :: now_outs r | ILater _ :: r => now_outs r end.
+
+Definition on_event (fl : flavour) (s : sess) (ev : event) : sess * list out :=
   match lookup (e_sub ev) (s_subs s) with
-  | Some lst => deliver lst ev s                                   (* if msg.subscription in self._subscriptions *)
+  | Some lst =>                                                    (* if msg.subscription in self._subscriptions *)
+      let '(s1, its) := deliver fl lst ev s in
+      match fl with
+      | Tx => (s1, now_outs its)                                   (* nothing is deferred: program order *)
+      | Aio => let '(s2, g0, g1, g2) := run_items ev s1 its in (s2, g0 ++ g1 ++ g2)
+      end
   | None => (s, [ORaised EProtocolError])                         (* EVENT received for non-subscribed subscription ID *)
   end.
 
@@ -429,8 +488,10 @@ Inductive op :=
 Definition is_message (o : op) : bool :=
   match o with OpSubscribe _ _ | OpSubscribeObj _ | OpUnsubscribe _ | OpLose => false | _ => true end.
 
-(* Twisted-order outputs *)
-Definition step_core (s : sess) (o : op) : sess * list out :=
+Definition is_event (o : op) : bool := match o with OpEvent _ => true | _ => false end.
+
+(* outputs in Twisted order, except for EVENT whose outputs already come in the flavour's order *)
+Definition step_core (fl : flavour) (s : sess) (o : op) : sess * list out :=
   if is_message o && negb (s_joined s) then (s, [ORaised EProtocolError])    (* session is not yet established *)
   else match o with
   | OpSubscribe h t => api_subscribe s h t
@@ -440,18 +501,12 @@ Definition step_core (s : sess) (o : op) : sess * list out :=
   | OpUnsubscribed r => on_unsubscribed s r
   | OpRevoked _ => on_unsubscribed s 0                            (* msg.request == 0 is looked up like any other id *)
   | OpError rt r u => on_error s rt r u
-  | OpEvent ev => on_event s ev
+  | OpEvent ev => on_event fl s ev
   | OpLose => on_lose s
   end.
 
-(* txaio flavour: Twisted fires callbacks synchronously; asyncio runs every future callback in the loop turn after
-   the operation (first the callbacks of the futures completed by the operation, then those of gathers). *)
-Inductive flavour := Tx | Aio.
-
-Definition is_immediate (o : out) : bool :=
-  match o with OSent _ | OInvoke _ _ _ _ _ | ORaised _ => true | _ => false end.
-Definition is_gather (o : out) : bool := match o with ODoneG _ _ => true | _ => false end.
-
+(* asyncio, operations other than EVENT: first what happens inside the call, then the callbacks of the futures
+   completed by the operation, then those of gathers *)
 Definition order (fl : flavour) (os : list out) : list out :=
   match fl with
   | Tx => os
@@ -461,7 +516,7 @@ Definition order (fl : flavour) (os : list out) : list out :=
   end.
 
 Definition step (fl : flavour) (s : sess) (o : op) : sess * list out :=
-  let '(s', os) := step_core s o in (s', order fl os).
+  let '(s', os) := step_core fl s o in (s', if is_event o then os else order fl os).
 
 Fixpoint run (fl : flavour) (s : sess) (ops : list op) : sess * list (list out) :=
   match ops with
